@@ -79,6 +79,22 @@ def gen(ctx):
                     base_def + "(when true (:= Report.x " + junk + ") (report))", "(def (Report (x " + junk + ")))" + base_ev,
                     base_def + base_ev + "(" + junk, base_def + "(when (" + junk + ") (report))"):
             yield cmp_case(src, tags=("nonascii-sweep",))
+    # bushy expressions: many operator nodes at small nesting depth (temporaries are numbered with a u8)
+    def bushy(n):
+        if n == 0:
+            return "1"
+        l = (n - 1) // 2
+        return "(+ %s %s)" % (bushy(l), bushy(n - 1 - l))
+    for n in (7, 8, 9, 15, 16, 17, 254, 255, 256, 257, 258, 300, 511, 512, 513, 700):
+        yield cmp_case("(def (Report (x 0))) (when true (:= Report.x %s) (report))" % bushy(n), tags=("bushy",))
+        yield cmp_case("(def (Report (x 0))) (when (< %s 5) (report))" % bushy(n), tags=("bushy",))
+    # declaration counts around the u8 register counters, one kind and mixed kinds (volatile / plain share one counter)
+    def decls(nv, npl, rep):
+        ds = ["(volatile v%d %d)" % (i, i % 7) for i in range(nv)] + ["(p%d %d)" % (i, i % 5) for i in range(npl)]
+        return ("(def (Report %s))" % " ".join(ds)) if rep else ("(def (Report (x 0)) %s)" % " ".join(ds))
+    for nv, npl in ((0, 255), (255, 0), (0, 256), (256, 0), (128, 128), (200, 100), (255, 1), (1, 255), (127, 128), (300, 300), (254, 1), (16, 0), (17, 0), (8, 9)):
+        for rep in (True, False):
+            yield cmp_case(decls(nv, npl, rep) + " (when true (report))", tags=("decl-count",))
     for depth in [1, 2, 8, 9, 16, 17, 32, 64]:
         for shape in ("l", "r"):
             e = "1"
